@@ -120,9 +120,12 @@ def run_case(case, col=None):
             slot = getattr(se, "slot", None)
             ok = False
             cands = []
-            for rk, names in flagged.items():
-                for nm in names:
-                    cands.append(nm)
+            # PyTeal reports only the first error; it may be a load in dead code (judged as if reachable, see above)
+            for fl in (flagged, flagged_cons):
+                for rk, names in fl.items():
+                    for nm in names:
+                        if nm not in cands:
+                            cands.append(nm)
             for nm in cands:
                 v = b.vars.get(nm)
                 if v is None:
